@@ -40,6 +40,7 @@ pub fn run(fields: &[&str], cases: &mut impl Write, out: &mut impl Write, _line:
         "EQV" => run_eqv(fields, out),
         "LIBR" => run_libr(fields, out),
         "SLICEB" => run_sliceb(fields, out),
+        "UNSAFE" => run_unsafe(fields, out),
         _ => writeln!(out, "{id} SKIP unknown-request").unwrap(),
     }));
     if let Err(e) = r {
@@ -220,6 +221,16 @@ fn run_arch(fields: &[&str], out: &mut impl Write) {
     let usage: Vec<String> = split_list(fields.get(6).copied().unwrap_or("")).iter().map(|h| unhex(h)).collect();
     let path = format!("{}/arch-{}-{}.zip", work_dir(), std::process::id(), id);
     let mut problems: Vec<String> = Vec::new();
+    // the path is in use: an earlier, longer archive is there (the new one must replace it)
+    {
+        let mut longer = sets.clone();
+        for i in 0..6 {
+            longer.insert(format!("earlier-{i}"), w.graph.mk_unit_colored_vertices());
+        }
+        let mut fs2 = formulas.clone();
+        fs2.push("true".to_string());
+        let _ = build_result_archive(longer, &path, w.bn.to_string().as_str(), fs2);
+    }
     if let Err(e) = build_result_archive(sets.clone(), &path, w.bn.to_string().as_str(), formulas.clone()) {
         writeln!(out, "{id} ERR write:{}", clean(&e.to_string())).unwrap();
         return;
@@ -998,6 +1009,53 @@ fn run_sliceb(fields: &[&str], out: &mut impl Write) {
     }
     if bad.is_empty() {
         writeln!(out, "{id} OK {} slices on {} variables", compared, graph.num_vars()).unwrap();
+    } else {
+        writeln!(out, "{id} ERR {}", clean(&bad.join("; "))).unwrap();
+    }
+}
+
+/// UNSAFE id k net formulas
+/// C18 on networks of any size: model_check_formula_unsafe_ex against model_check_formula_dirty, by
+/// BDD equality, for formulae of the fragment (or on steady-state-free networks).
+fn run_unsafe(fields: &[&str], out: &mut impl Write) {
+    let id = fields[1];
+    let k: u16 = fields[2].parse().unwrap();
+    let bn = match load_network(fields[3]) {
+        Ok(b) => b,
+        Err(e) => {
+            writeln!(out, "{id} SKIP network:{}", clean(&e)).unwrap();
+            return;
+        }
+    };
+    let graph = match get_extended_symbolic_graph(&bn, k) {
+        Ok(g) => g,
+        Err(e) => {
+            writeln!(out, "{id} SKIP graph:{}", clean(&e)).unwrap();
+            return;
+        }
+    };
+    let formulas: Vec<String> = split_list(fields[4]).iter().map(|h| unhex(h)).collect();
+    let mut bad = Vec::new();
+    for f in &formulas {
+        let a = model_check_formula_dirty(f.as_str(), &graph);
+        let b = model_check_formula_unsafe_ex(f.as_str(), &graph);
+        match (a, b) {
+            (Ok(x), Ok(y)) => {
+                if x.as_bdd() != y.as_bdd() {
+                    bad.push(format!(
+                        "{}: standard evaluation has {} pairs, the self-loop-free variant {}",
+                        f,
+                        x.approx_cardinality(),
+                        y.approx_cardinality()
+                    ));
+                }
+            }
+            (Err(_), Err(_)) => {}
+            (x, y) => bad.push(format!("{}: standard {:?}, self-loop-free {:?}", f, x.is_ok(), y.is_ok())),
+        }
+    }
+    if bad.is_empty() {
+        writeln!(out, "{id} OK {} formulae on {} variables", formulas.len(), graph.num_vars()).unwrap();
     } else {
         writeln!(out, "{id} ERR {}", clean(&bad.join("; "))).unwrap();
     }
